@@ -13,6 +13,13 @@ import random
 
 from .. import core, par
 
+MANIFEST = dict(
+    text="Proof: Lean theorems split_join / split_join_atom / no_sep_is_atom / list_has_sep / escape_inert / escape_single_pass over a hand model of CellParser for all strings and all two-level lists (unbounded); tied to the code by an exhaustive differential run (all strings up to 6 (quick) / 8 (thorough) symbols over a 7-letter alphabet, all small nested lists, random long unicode strings) and by T1 constants regenerated from the source.",
+    ref="§5 C08",
+    note="Trusts: Lean kernel (axioms ⊆ propext/Quot.sound/Classical.choice, audited each run), the differential harness and Driver JSON codec, CPython str.strip/replace as modelled, Jinja2 for the escape-filter oracle. U+0001 excluded by hypothesis (known finding F-C08-a).",
+    technique="Lean 4 proof (induction on strings; transparent-piece lemma) + exhaustive model/code correspondence",
+)
+
 ALPHA = ["a", "|", ";", "\\", " ", "\n", "\x01"]
 TMP = "\x01"
 
